@@ -5,6 +5,7 @@ package main
 // processing instructions), versus Mxj.Model.Seq.
 
 import (
+	"regexp"
 	"bytes"
 	"fmt"
 	"strings"
@@ -104,6 +105,16 @@ func c04Exec(op string) string {
 				notes = append(notes, "indented round trip changes the token stream: want "+clip(want, 300)+" got "+clip(got, 300))
 			}
 		}
+		if ierr == nil && !o.KeepSpace && !interTagBlank.Match(x) {
+			// NewMapFormattedXmlSeq: white space between tags is formatting - the indented document
+			// decodes to what the compact one decodes to (when the content itself has no blank run
+			// between a '>' and a '<', e.g. inside a comment or a CDATA section)
+			mf, ferr := mxj.NewMapFormattedXmlSeq(xi, o.Cast)
+			mc, cerr := mxj.NewMapXmlSeq(x, o.Cast)
+			if (ferr == nil) != (cerr == nil) || (ferr == nil && enc(map[string]interface{}(mf)) != enc(map[string]interface{}(mc))) {
+				notes = append(notes, "FORMATTED NewMapFormattedXmlSeq of the indented document differs from NewMapXmlSeq of the compact one")
+			}
+		}
 		if !o.Cast && !o.Snake && !o.EscDec && !o.KeepSpace && esc {
 			b, berr := mxj.BeautifyXml([]byte(doc), "", " ")
 			if berr != nil {
@@ -115,6 +126,8 @@ func c04Exec(op string) string {
 	}
 	return res + strings.Join(notes, "; ")
 }
+
+var interTagBlank = regexp.MustCompile(`>[\n\t\r ]+<`)
 
 func c04Describe(op string) string {
 	c, _ := newCur(op)
